@@ -4,7 +4,7 @@ from ..norm import n, P, C, V, ANY, match, find_all, binop
 from . import common, cmpmodel, panics, c03
 
 ID = "C11"
-CONFIGS = {"quick": ["K0"], "thorough": ["K0", "K1", "K7", "K8"]}
+CONFIGS = {"quick": ["K0", "K7", "K8"], "thorough": ["K0", "K1", "K7", "K8", "K19"]}
 META = {
     "explanation": (
         "Static analysis (MIR + constant evaluator).  The statement quantifies over feeding histories of 2^32 bytes "
